@@ -12,20 +12,22 @@ from .core import frac
 
 # Input classes on which the UNCHANGED code misbehaves and that wait for a decision (genuine-defect candidates, notes/C03.md).
 # While an entry is listed its class is not generated; delete the entry and the generator produces it and the oracle reports it.
-AWAITING_DECISION = [
-    dict(id="W-C03-1", cls="mc-default-bins-unreachable",
-         what="magnitude_counts() without mag_bins on a catalog whose region carries no bins (region.magnitudes is None) raises "
-              "TypeError (len(None), catalogs.py:731) and on a catalog without region AttributeError (catalogs.py:728) although "
-              "the docstring promises the default CSEP_MW_BINS; the default is only reached for a region OBJECT WITHOUT the "
-              "attribute, where it is also written onto the shared region"),
-]
+# W-C03-1 (magnitude_counts() without bins on a region without bins / without region) was repaired in /repo by D41 (0529988) and
+# is generated since; its witnesses are corpus cases.
+AWAITING_DECISION = []
 _AWAIT = {w["cls"] for w in AWAITING_DECISION}
 
 STATES = ["bins", "bins", "unset", "absent", "noregion"]
+CALL_OPS = ("smc", "mc", "midx", "sc", "sep", "df")
 
 
-# ----------------------------------------------------------------------------- call sequences in every region state
+# ----------------------------------------------------------------------------- sessions on shared objects, in every region state
 def gen_state_seq(rng, tier):
+    """A SESSION: one region object shared by TWO catalog objects; a random sequence of gridding calls on either catalog
+    (explicit / region-bound bins, retbins, tol, data-frame columns with and without the datetime index) interleaved with what a
+    caller may do in between: re-bind `region.magnitudes` to another grid, overwrite magnitudes of a catalog's event array in
+    place, filter a catalog in place (possibly emptying it). After every step the result must be the exact recount of the
+    catalog AS IT IS NOW on the bins that step must use."""
     from . import c03 as base
     from . import c01
     from csep.utils.constants import CSEP_MW_BINS
@@ -36,61 +38,108 @@ def gen_state_seq(rng, tier):
         if e not in grids:
             grids.append(e)
     state = rng.choice(STATES)
-    n = rng.choice([0, 1, 2, 3, 5, 10, 30])
+    sizes = [rng.choice([0, 0, 1, 2, 3, 5, 10, 30]), rng.choice([0, 1, 3, 8])]
     frac_out = rng.choice([0.0, 0.0, 0.0, 0.1])
     frac_below = rng.choice([0.0, 0.0, 0.1])
     if rng.random() < 0.6:
         spec = c01._spec_cells_tuple(c01.gen_lattice(rng, "quick"))
         region, cells, flags = c01.build_region(spec)
         orc = c01.Oracle(region, cells, flags)
-        locs = base.gen_events_cart(rng, region, orc, n, frac_out)
-        locs = [p for p in locs if not (orc.ax.allowed(p[0])[2] or orc.ay.allowed(p[1])[2])]
-        if orc.ax.n == 1:
-            locs = [p for p in locs if Fraction(p[0]) < orc.ax.top]
-        if orc.ay.n == 1:
-            locs = [p for p in locs if Fraction(p[1]) < orc.ay.top]
+        catlocs = []
+        for n in sizes:
+            locs = base.gen_events_cart(rng, region, orc, n, frac_out) if n else []
+            locs = [p for p in locs if not (orc.ax.allowed(p[0])[2] or orc.ay.allowed(p[1])[2])]
+            if orc.ax.n == 1:
+                locs = [p for p in locs if Fraction(p[0]) < orc.ax.top]
+            if orc.ay.n == 1:
+                locs = [p for p in locs if Fraction(p[1]) < orc.ay.top]
+            catlocs.append(locs)
         where = dict(kind="stateseq", rkind="cart", region=spec)
     else:
         region, _ = base.quad_region(rng, None)
-        locs = base.gen_events_quad(rng, region, n, frac_out)
+        catlocs = [base.gen_events_quad(rng, region, n, frac_out) if n else [] for n in sizes]
         where = dict(kind="stateseq", rkind="quad", quadkeys=[str(k) for k in region.quadkeys])
     dflt = [float(x) for x in CSEP_MW_BINS]
-    alledges = sorted(set(x for e in grids for x in e) | (set(dflt) if state == "absent" else set()))
+    alledges = sorted(set(x for e in grids for x in e) | set(dflt))
 
     def clear(m):
         return all(m == x or abs(m - x) > 1e-6 for x in alledges)
-    mags = []
-    for _ in locs:
+
+    def one_mag():
         m = base.gen_mags(rng, rng.choice(grids), 1, frac_below)[0]
         for _try in range(20):
             if clear(m):
-                break
+                return m
             m = base.gen_mags(rng, rng.choice(grids), 1, frac_below)[0]
-        else:
-            m = float(max(alledges) + 1.0)
-        mags.append(m)
+        return float(max(alledges) + 1.0)
+    cats = [[[repr(p[0]), repr(p[1]), repr(one_mag())] for p in locs] for locs in catlocs]
     ops = []
-    for _ in range(rng.randint(3, 8)):
-        op = rng.choice(["smc", "smc", "mc", "mc", "mc", "midx", "sc", "sep"])
-        g = rng.choice([None, None, 1, 2, 0]) if op in ("smc", "mc") else None
-        if op == "mc" and g is None and state in ("unset", "noregion") and "mc-default-bins-unreachable" in _AWAIT:
-            g = rng.choice([0, 1, 2])
-        ops.append([op, g, rng.choice(["list", "ndarray"]), bool(op == "mc" and rng.random() < 0.4)])
-    return dict(where, state=state, grids=[[repr(x) for x in e] for e in grids], ops=ops,
-                events=[[repr(p[0]), repr(p[1]), repr(m)] for p, m in zip(locs, mags)])
+    for _ in range(rng.randint(3, 9)):
+        k = rng.random()
+        if k < 0.12 and state != "noregion":
+            ops.append(["rebind", rng.choice([0, 1, 2])])
+            # … and the next call is region-bound: it must grid against the bins bound NOW
+            ops.append([rng.choice(["smc", "mc", "midx", "df"]), None, "list", dict(retbins=False, with_datetime=False), rng.randrange(2)])
+        elif k < 0.2:
+            ops.append(["edit", rng.randrange(2), rng.randrange(64), repr(one_mag())])
+        elif k < 0.27:
+            g = rng.choice(grids)
+            ops.append(["filter", rng.randrange(2), repr(rng.choice(g + [g[0] - 1.0, g[-1] + 50.0]))])
+        else:
+            op = rng.choice(["smc", "smc", "mc", "mc", "mc", "midx", "sc", "sep", "df"])
+            g = rng.choice([None, None, 1, 2, 0]) if op in ("smc", "mc") else None
+            extra = dict(retbins=bool(op == "mc" and rng.random() < 0.4))
+            if op in ("smc", "mc") and rng.random() < 0.15:
+                extra["tol"] = rng.choice([1e-9, 1e-12])
+            if op == "df":
+                extra["with_datetime"] = rng.random() < 0.5
+            ops.append([op, g, rng.choice(["list", "ndarray"]), extra, rng.randrange(2)])
+    return dict(where, state=state, grids=[[repr(x) for x in e] for e in grids], ops=ops, catalogs=cats,
+                dup_times=rng.random() < 0.5)
 
 
 def _enc_edges(e):
     return ",".join(frac(x) for x in e)
 
 
+def _session_cat(region, evs, dup_times):
+    from csep.core.catalogs import CSEPCatalog
+    # events may share an origin time (duplicated labels of the datetime-indexed data frame)
+    data = [(str(k), 1000 * (k // 3 if dup_times else k), float(lat), float(lon), 10.0, float(m)) for k, (lon, lat, m) in enumerate(evs)]
+    return CSEPCatalog(data=data, region=region)
+
+
+def _guarded(fn):
+    """Lesson: a harness crash is a missed detection. An exception while the implementation's output is being interpreted
+    (unexpected shape / dtype / type / missing key) is reported as an oracle failure with the case as replay, not as exit 2.
+    Driver failures and KeyboardInterrupt still propagate."""
+    import functools
+
+    @functools.wraps(fn)
+    def wrapper(run, *args, **kw):
+        try:
+            return fn(run, *args, **kw)
+        except (RuntimeError, KeyboardInterrupt, MemoryError):
+            raise
+        except Exception as ex:
+            case = next((a for a in args if isinstance(a, dict)), None)
+            import traceback
+            where = traceback.extract_tb(ex.__traceback__)[-1]
+            run.oracle_failure(case, f"the implementation's output could not be interpreted ({type(ex).__name__}: {ex} at "
+                                     f"{where.name}:{where.lineno}): it deviates in shape / type from what the property describes")
+    return wrapper
+
+
+@_guarded
 def state_seq_case(run, drv, pending, case):
     from . import c03 as base
     from . import c01
     from csep.utils.constants import CSEP_MW_BINS
     grids = [[float(x) for x in e] for e in case["grids"]]
-    evs = [(float(a), float(b), float(c)) for a, b, c in case["events"]]
-    n = len(evs)
+    if "catalogs" in case:
+        cur = [[(float(a), float(b), float(c)) for a, b, c in cat] for cat in case["catalogs"]]
+    else:                                   # phase-1 replay format: one catalog
+        cur = [[(float(a), float(b), float(c)) for a, b, c in case["events"]], []]
     state = case["state"]
     dflt = [float(x) for x in CSEP_MW_BINS]
     if case["rkind"] == "cart":
@@ -117,27 +166,87 @@ def state_seq_case(run, drv, pending, case):
     elif state == "absent":
         region.magnitudes = None
         del region.magnitudes
-    cat = base._cat(None if state == "noregion" else region, evs)
+    dup = bool(case.get("dup_times"))
+    catobjs = [_session_cat(None if state == "noregion" else region, evs, dup) for evs in cur]   # TWO catalogs, ONE region
     run.case(case if run.evaluations < 4 else None, ("stateseq", json.dumps(case, sort_keys=True, default=str)))
     run.count("stateseq:" + state)
-    cache = {}
 
-    def rec(edges):
-        k = tuple(edges)
-        if k not in cache:
-            cache[k] = base.recount(ncell, cell_of, list(edges), evs, cart)
-        return cache[k]
+    def rec(edges, ci):
+        return base.recount(ncell, cell_of, list(edges), cur[ci], cart)
     bound = {"bins": grids[0], "unset": None, "absent": "absent", "noregion": "noregion"}[state]
-    installed_seen, not_installed_seen = False, False
-    results, calls_enc = [], []
-    for step, (op, g, how, retbins) in enumerate(case["ops"]):
+    default_used, not_written_seen = False, False
+    segments = []                           # model: one `runCalls` per (catalog, events, region state) segment
+
+    def benc():
+        return "b:" + _enc_edges(bound) if isinstance(bound, list) else {None: "unset", "absent": "absent", "noregion": "noregion"}[bound]
+
+    def new_segment(ci):
+        segments.append(dict(ci=ci, evs=list(cur[ci]), bound=benc(), calls=[], results=[]))
+
+    def fail(step, msg):
+        run.oracle_failure(dict(case, failed_step=step), msg)
+
+    def describe(step):
+        out = []
+        for o in case["ops"][:step]:
+            out.append(o[0] + (f"(cat {o[4]}, {'bound' if o[1] is None else 'grid ' + str(o[1])})" if o[0] in CALL_OPS else str(o[1:])))
+        return out
+    for step, op_ in enumerate(case["ops"]):
+        op = op_[0]
+        # ------------------------------------------------ what a caller does between calls
+        if op == "rebind":
+            if state == "noregion":
+                continue
+            region.magnitudes = numpy.array(grids[op_[1]])
+            bound = grids[op_[1]]
+            run.count("stateseq:caller-rebinds-region-bins")
+            segments.append(None)
+            continue
+        if op == "edit":
+            ci, j, m = op_[1], op_[2], float(op_[3])
+            if cur[ci]:
+                j %= len(cur[ci])
+                try:
+                    catobjs[ci].catalog["magnitude"][j] = m
+                except Exception as ex:
+                    fail(step, f"writing a magnitude into the catalog's event array raised {type(ex).__name__}: {ex}")
+                    return
+                cur[ci][j] = (cur[ci][j][0], cur[ci][j][1], m)
+                run.count("stateseq:caller-edits-events-in-place")
+                segments.append(None)
+            continue
+        if op == "filter":
+            ci, thr = op_[1], float(op_[2])
+            try:
+                catobjs[ci].filter(f"magnitude >= {thr!r}")
+            except Exception as ex:
+                fail(step, f"filter raised {type(ex).__name__}: {ex}")
+                return
+            cur[ci] = [e for e in cur[ci] if e[2] >= thr]
+            run.count("stateseq:filtered-in-place" + (":emptied" if not cur[ci] else ""))
+            segments.append(None)
+            continue
+        # ------------------------------------------------ a gridding call
+        g, how = op_[1], op_[2]
+        extra = op_[3] if isinstance(op_[3], dict) else dict(retbins=bool(op_[3]))
+        ci = op_[4] if len(op_) > 4 else 0
+        retbins = bool(extra.get("retbins"))
+        cat, evs, n = catobjs[ci], cur[ci], len(cur[ci])
+        cells_ev = [cell_of(lon, lat) for lon, lat, _ in evs]
+        anyout = any(c is None for c in cells_ev)
         kw = {}
         if g is not None:
             kw["mag_bins"] = list(grids[g]) if how == "list" else numpy.array(grids[g])
         if retbins:
             kw["retbins"] = True
+        if "tol" in extra:
+            kw["tol"] = extra["tol"]
+        if not segments or segments[-1] is None or segments[-1]["ci"] != ci:
+            if segments and segments[-1] is None:
+                segments.pop()
+            new_segment(ci)
         # ---- what the property demands of this step
-        alt = None                          # a second acceptable outcome (default bins not written onto the region)
+        alt = None
         if op in ("smc", "mc"):
             if g is not None:
                 use = grids[g]
@@ -147,18 +256,19 @@ def state_seq_case(run, drv, pending, case):
                         alt = "explicit"    # a rewrite that looks at mag_bins first may simply count
             elif isinstance(bound, list):
                 use = bound
-            elif bound == "absent" and op == "mc":
-                use = dflt
+            elif op == "mc":
+                use = dflt                  # documented default (D41)
             else:
                 use = "raise"
-        elif op == "midx":
-            use = bound if isinstance(bound, list) else "raise"
+        elif op in ("midx", "df"):
+            use = bound if isinstance(bound, list) else ("raise" if op == "midx" else "noidx")
+            if op == "df" and bound == "noregion":
+                use = "plain"
         else:
             use = "raise" if bound == "noregion" else "region"
-        calls_enc.append({"mc": f"mc:{_enc_edges(grids[g]) if g is not None else 'none'}:{int(retbins)}",
-                          "smc": f"smc:{_enc_edges(grids[g]) if g is not None else 'none'}", "midx": "midx", "sc": "sc",
-                          "sep": "sep"}[op])
-        # ---- the call
+        enc = {"mc": f"mc:{_enc_edges(grids[g]) if g is not None else 'none'}:{int(retbins)}",
+               "smc": f"smc:{_enc_edges(grids[g]) if g is not None else 'none'}", "midx": "midx", "sc": "sc", "sep": "sep"}.get(op)
+        # ---- the call (every access to the output is guarded: a deviation is an output, not a crash)
         retb = None
         try:
             if op == "smc":
@@ -167,29 +277,61 @@ def state_seq_case(run, drv, pending, case):
                 r = cat.magnitude_counts(**kw)
                 if retbins:
                     if not (isinstance(r, tuple) and len(r) == 2):
-                        run.oracle_failure(dict(case, failed_step=step), "magnitude_counts(retbins=True) did not return (bins, counts)")
+                        fail(step, "magnitude_counts(retbins=True) did not return (bins, counts)")
                         return
-                    retb, r = [float(x) for x in r[0]], r[1]
+                    retb, r = [float(x) for x in numpy.asarray(r[0], dtype=float).ravel()], r[1]
                 got = base._ints(r)
             elif op == "midx":
                 got = base._ints(cat.get_mag_idx())
             elif op == "sc":
                 got = base._ints(cat.spatial_counts())
-            else:
+            elif op == "sep":
                 got = base._ints(cat.spatial_event_probability())
+            else:
+                df = cat.to_dataframe(with_datetime=bool(extra.get("with_datetime")))
+                cols = list(df.columns)
+                if len(df) != n:
+                    fail(step, f"to_dataframe has {len(df)} rows for {n} events")
+                    return
+                rid = base._ints(df["region_id"].to_numpy()) if "region_id" in cols else None
+                mid = base._ints(df["mag_id"].to_numpy()) if "mag_id" in cols else None
+                got = ("df", rid, mid)
         except ValueError:
             got = "E"
         except Exception as ex:
             got = "X:" + type(ex).__name__
         run.count(f"stateseq:{state}:{op}:{'explicit' if g is not None else 'bound'}")
+        if "tol" in extra:
+            run.count("stateseq:tol-argument")
         # ---- expected
+        if op == "df":
+            raised = isinstance(got, str)
+            if use == "plain":
+                ok = (not raised) and got[1] is None and got[2] is None
+                want = "a frame without region_id / mag_id"
+            else:
+                # Cartesian: an outside event makes get_index_of raise; quadtree: pandas rejects the shorter column / empty catalog raises
+                must_raise = (anyout and n > 0) or (not cart and n == 0)
+                wrid = [c for c in cells_ev]
+                wmid = [-1 if x is None else x for x in rec(use, ci)[5]] if isinstance(use, list) else None
+                want = "raise" if must_raise else ("df", wrid, wmid)
+                ok = raised if must_raise else (not raised and got[1] == wrid and (got[2] == wmid or (wmid == [] and got[2] in ([], None))))
+                if not ok and not raised and state in ("absent", "unset") and default_used and got[1] == wrid and got[2] is None:
+                    ok, not_written_seen = True, True       # default bins not written onto the region
+            if not ok:
+                fail(step, f"region state '{state}': step {step} to_dataframe(with_datetime={extra.get('with_datetime')}) on catalog {ci} "
+                           f"after {describe(step)} = {str(got)[:160]}; the property demands {str(want)[:160]}")
+                return
+            if extra.get("with_datetime") and dup:
+                run.count("stateseq:df-datetime-index-duplicate-labels")
+            continue
         if use == "raise":
             want = "raise"
         elif use == "region":
-            e_sc, e_sep = rec(grids[0])[0], rec(grids[0])[1]
-            want = e_sc if op == "sc" else e_sep
+            r0 = rec(grids[0], ci)
+            want = r0[0] if op == "sc" else r0[1]
         else:
-            e_sc, e_sep, e_mc, e_smc, _, bins = rec(use)
+            e_sc, e_sep, e_mc, e_smc, _, bins = rec(use, ci)
             want = {"smc": e_smc, "mc": e_mc, "midx": [-1 if x is None else x for x in bins]}[op]
 
         def matches(want):
@@ -199,58 +341,68 @@ def state_seq_case(run, drv, pending, case):
                 return got == "E"
             return got == want or (want == [] and got == [])
         ok = matches(want)
-        # the default bins written onto the region (absent -> CSEP_MW_BINS): code as it is; a rewrite that does not write them
-        # makes later region-bound calls raise instead — both are accepted, per step
-        if not ok and state == "absent" and isinstance(bound, list) and op in ("smc", "midx"):
-            ok = matches("raise")
-            not_installed_seen = not_installed_seen or ok
+        # the default bins written onto the region (code as it is); a rewrite that does not write them makes later region-bound
+        # calls raise instead — both are accepted, per step
+        if not ok and state in ("absent", "unset") and default_used and isinstance(bound, list) and op in ("smc", "midx"):
+            if op == "midx" or g is None or state == "absent":
+                ok = matches("raise")
+                not_written_seen = not_written_seen or ok
         if not ok and alt == "explicit":
-            ok = matches(rec(grids[g])[3])
-            not_installed_seen = not_installed_seen or ok
+            ok = matches(rec(grids[g], ci)[3])
+            not_written_seen = not_written_seen or ok
         if not ok:
-            prev = [f"{o}({'bound' if gg is None else 'grid ' + str(gg)})" for o, gg, _, _ in case["ops"][:step]]
-            run.oracle_failure(dict(case, failed_step=step),
-                               f"region state '{state}': step {step} {op}({'region-bound' if g is None else 'explicit grid ' + str(g)}"
-                               f"{', retbins=True' if retbins else ''}) after {prev} = {str(got)[:160]}; the property demands "
-                               f"{str(want)[:160]}")
+            fail(step, f"region state '{state}': step {step} {op}({'region-bound' if g is None else 'explicit grid ' + str(g)}"
+                       f"{', retbins=True' if retbins else ''}{', tol=' + str(extra['tol']) if 'tol' in extra else ''}) on catalog {ci} "
+                       f"({n} events) after {describe(step)} = {str(got)[:160]}; the property demands {str(want)[:160]}")
             return
         if retbins and retb is not None and isinstance(use, list) and retb != [float(x) for x in use]:
-            run.oracle_failure(dict(case, failed_step=step),
-                               f"step {step} magnitude_counts(retbins=True) returned bins {retb[:6]}…, the bins it must use are {use[:6]}…")
+            fail(step, f"step {step} magnitude_counts(retbins=True) returned bins {retb[:6]}…, the bins it must use are {use[:6]}…")
             return
         if retbins and retb is not None:
             run.count("stateseq:retbins")
-        results.append((op, got, retb))
-        if state == "absent" and op == "mc" and g is None and bound == "absent":
-            bound = dflt                    # as the code is: the default bins are now bound to the region
-            installed_seen = True
-            run.count("stateseq:default-bins-used")
+        if n == 0 and g is not None and isinstance(bound, list) and len(bound) != len(grids[g]):
+            run.count("stateseq:empty-catalog+explicit-bins-of-other-length")
+        segments[-1]["calls"].append(enc)
+        segments[-1]["results"].append((step, op, got, retb))
+        if op == "mc" and g is None and not isinstance(bound, list):
+            run.count("stateseq:default-bins-used:" + str(bound))
+            if bound in ("absent", None):
+                bound = dflt                # as the code is: the default bins are now bound to the region
+                default_used = True
+                segments.append(None)       # the model continues from the new state in a fresh segment (also checks the write)
     # ---- the bins bound to the region afterwards
-    if state == "bins":
-        if not numpy.array_equal(numpy.asarray(region.magnitudes, dtype=float), numpy.array(grids[0])):
-            run.oracle_failure(case, "the magnitude bins bound to the region object were changed by the call sequence")
-            return
-    elif state == "unset":
-        if region.magnitudes is not None:
-            run.oracle_failure(case, f"a region without bins carries bins after the call sequence: {str(region.magnitudes)[:80]}")
-            return
-    elif state == "absent" and hasattr(region, "magnitudes"):
-        if not (installed_seen and numpy.array_equal(numpy.asarray(region.magnitudes, dtype=float), numpy.array(dflt))):
-            run.oracle_failure(case, f"bins appeared on the region object: {str(getattr(region, 'magnitudes'))[:80]}")
-            return
-    # ---- model (the code as it is); skipped when the implementation visibly does not write the default bins
-    if state == "absent" and installed_seen and (not_installed_seen or not hasattr(region, "magnitudes")):
-        run.count("stateseq:default-bins-not-written (model not compared)")
+    try:
+        has = hasattr(region, "magnitudes")
+        mags_now = None if not has or region.magnitudes is None else [float(x) for x in numpy.asarray(region.magnitudes, dtype=float).ravel()]
+    except Exception as ex:
+        fail(len(case["ops"]), f"reading region.magnitudes raised {type(ex).__name__}: {ex}")
         return
-    if not_installed_seen:
-        run.count("stateseq:explicit-bins-first (model not compared)")
+    if state != "noregion":
+        if isinstance(bound, list) and not default_used and mags_now != bound:
+            fail(len(case["ops"]), f"the magnitude bins bound to the region object were changed by the session: {str(mags_now)[:80]} "
+                                   f"instead of {str(bound)[:80]}")
+            return
+        if not isinstance(bound, list) and mags_now is not None:
+            fail(len(case["ops"]), f"bins appeared on a region without bins: {str(mags_now)[:80]}")
+            return
+        if default_used and mags_now is not None and mags_now != bound:
+            fail(len(case["ops"]), f"after the default bins were used the region carries {str(mags_now)[:80]}")
+            return
+        if default_used and mags_now is None:
+            not_written_seen = True
+    # ---- model (the code as it is); skipped when the implementation visibly does not write the default bins / reads mag_bins first
+    if not_written_seen:
+        run.count("stateseq:default-bins-not-written or explicit-bins-first (model not compared)")
         return
-    lons = ",".join(frac(ev[0]) for ev in evs) if evs else "-"
-    lats = ",".join(frac(ev[1]) for ev in evs) if evs else "-"
-    mags = ",".join(frac(ev[2]) for ev in evs) if evs else "-"
-    benc = {"bins": "b:" + _enc_edges(grids[0]), "unset": "unset", "absent": "absent", "noregion": "noregion"}[state]
-    q = drv.ask(" ".join(["c03_seqc" if cart else "c03_seqq"] + rargs + [lons, lats, mags, benc, ";".join(calls_enc)]))
-    pending.append(("stateseq", case, q, results))
+    for seg in segments:
+        if seg is None or not seg["calls"]:
+            continue
+        evs = seg["evs"]
+        lons = ",".join(frac(ev[0]) for ev in evs) if evs else "-"
+        lats = ",".join(frac(ev[1]) for ev in evs) if evs else "-"
+        mags = ",".join(frac(ev[2]) for ev in evs) if evs else "-"
+        q = drv.ask(" ".join(["c03_seqc" if cart else "c03_seqq"] + rargs + [lons, lats, mags, seg["bound"], ";".join(seg["calls"])]))
+        pending.append(("stateseq", case, q, [(op, got, retb) for _, op, got, retb in seg["results"]]))
 
 
 def _canon_model_tok(tok):
@@ -297,6 +449,16 @@ def flush(run, drv, pending):
                 if not same:
                     run.mismatch(dict(case, failed_step=step, op=op), str(got)[:200], tok[:300])
                     break
+        elif item[0] == "big":
+            _, case, q, got = item
+            toks = out[q].split(" ")
+            if len(toks) != 4:
+                run.mismatch(case, "impl", out[q][:200])
+                continue
+            from . import c03 as base
+            model = tuple(base._parse(t) for t in toks)
+            if model != tuple(got):
+                run.mismatch(case, [str(x)[:150] for x in got], out[q][:400])
         else:
             _, case, q, got = item
             line = out[q]
@@ -344,10 +506,15 @@ def gen_expected_case(rng, tier):
     for locs in cats:
         mags = base.gen_mags(rng, edges, len(locs), frac_below)
         out.append([[repr(p[0]), repr(p[1]), repr(m)] for p, m in zip(locs, mags)])
-    return dict(where, edges=[repr(x) for x in edges], catalogs=out, source=rng.choice(["list", "list", "generator"]),
-                bind_other=rng.random() < 0.3)
+    # carried filters applied by the forecast itself while get_expected_rates makes the FIRST pass (apply_filters=True)
+    thr = None
+    if rng.random() < 0.35:
+        thr = repr(rng.choice(edges + [edges[0] - 1.0]))
+    return dict(where, edges=[repr(x) for x in edges], catalogs=out, source=rng.choice(["list", "list", "generator", "generator-nostore"]),
+                bind_other=rng.random() < 0.3, filter_thr=thr)
 
 
+@_guarded
 def expected_case(run, drv, pending, case):
     from . import c03 as base
     from . import c01
@@ -380,10 +547,16 @@ def expected_case(run, drv, pending, case):
                                              magnitudes=numpy.array([1.0, 2.0]))
     cats = [base._cat(other, evs) for evs in catevs]
     ncat = len(cats)
+    fkw = {}
+    thr = case.get("filter_thr")
+    if thr is not None:
+        fkw = dict(filters=[f"magnitude >= {float(thr)!r}"], apply_filters=True)
+        catevs = [[e for e in evs if e[2] >= float(thr)] for evs in catevs]      # what the forecast must grid
+        run.count("expected:carried-filters-first-pass")
     if case["source"] == "list":
-        fc = CatalogForecast(catalogs=cats, region=region)
+        fc = CatalogForecast(catalogs=cats, region=region, **fkw)
     else:
-        fc = CatalogForecast(loader=lambda **kw: iter(cats), region=region)
+        fc = CatalogForecast(loader=lambda **kw: iter(cats), region=region, store=(case["source"] != "generator-nostore"), **fkw)
     run.count(f"expected:{case['rkind']}:{case['source']}")
     # oracle: recount of every catalog; rejected iff some catalog holds an outside / below-minimum event
     total = [[0] * len(edges) for _ in range(ncell)]
@@ -449,9 +622,146 @@ def expected_case(run, drv, pending, case):
         run.oracle_failure(case, "marginals of the expected rates differ from the sums of the rate array")
 
 
+# ----------------------------------------------------------------------------- sizes: many events in one bin, > 2^16 events
+DENSE_SIZES = [130, 300, 300, 1000]                 # beyond int8 / uint8 in ONE (cell, bin)
+HUGE_SIZES = [33000, 66000, 70000]                  # beyond int16 / uint16 in ONE (cell, bin); catalogs with > 2^16 events
+DTYPE_VARIANTS = ["native", "native", "big-endian"]
+
+
+def gen_big_case(rng, huge):
+    """a dense sequence: N events at ONE location and ONE magnitude (one (cell, bin) of a small grid) plus a background"""
+    rk = rng.choice(["cart", "quad"])
+    edges = rng.choice([[4.0, 5.0, 6.0], [2.5, 3.5], [4.95, 5.95, 6.95, 7.95], [3.0]])
+    n = rng.choice(HUGE_SIZES) if huge else rng.choice(DENSE_SIZES)
+    n += rng.randrange(0, 50)
+    if rk == "cart":
+        nx, ny = rng.randint(2, 4), rng.randint(2, 3)
+        where = dict(rkind="cart", origins=[[repr(float(i)), repr(float(j))] for i in range(nx) for j in range(ny)], dh="1.0")
+        pts = [(i + rng.choice([0.0, 0.25, 0.5]), j + rng.choice([0.0, 0.5])) for i in range(nx) for j in range(ny)]
+    else:
+        where = dict(rkind="quad", quadkeys=["0", "1", "2", "3"])
+        pts = [(-90.0, 40.0), (90.0, 40.0), (-90.0, -40.0), (90.0, -40.0), (0.0, 0.0), (-180.0, 0.0)]
+    mags = [edges[0], edges[-1], edges[-1] + 7.5] + [e + 0.5 * (edges[1] - edges[0] if len(edges) > 1 else 1.0) for e in edges]
+    dense = (rng.choice(pts), rng.choice(mags))
+    second = (rng.choice(pts), rng.choice(mags), rng.choice([0, 0, 256, 65536 - n if huge and n < 65536 else 300]))
+    back = [[repr(p[0]), repr(p[1]), repr(m)] for p, m in ((rng.choice(pts), rng.choice(mags)) for _ in range(rng.randint(0, 300)))]
+    return dict(kind="big", **where, edges=[repr(x) for x in edges], dense=[repr(dense[0][0]), repr(dense[0][1]), repr(dense[1])],
+                n_dense=n, second=[repr(second[0][0]), repr(second[0][1]), repr(second[1]), max(0, second[2])], background=back,
+                mode=rng.choice(["bound", "list", "ndarray"]), dtype=rng.choice(DTYPE_VARIANTS), order=rng.choice(["dense-first", "shuffled"]),
+                seed=rng.randrange(2 ** 32))
+
+
+@_guarded
+def big_case(run, drv, pending, case):
+    from . import c03 as base
+    from csep.core.catalogs import CSEPCatalog
+    from csep.core.regions import CartesianGrid2D, QuadtreeGrid2D
+    edges = [float(x) for x in case["edges"]]
+    d = case["dense"]
+    evs = [(float(d[0]), float(d[1]), float(d[2]))] * int(case["n_dense"])
+    s2 = case["second"]
+    evs = evs + [(float(s2[0]), float(s2[1]), float(s2[2]))] * int(s2[3]) + [(float(a), float(b), float(c)) for a, b, c in case["background"]]
+    n = len(evs)
+    arr_lon = numpy.array([e[0] for e in evs]); arr_lat = numpy.array([e[1] for e in evs]); arr_m = numpy.array([e[2] for e in evs])
+    if case["order"] == "shuffled":
+        perm = numpy.random.RandomState(case["seed"]).permutation(n)
+        arr_lon, arr_lat, arr_m = arr_lon[perm], arr_lat[perm], arr_m[perm]
+    bo = ">" if case["dtype"] == "big-endian" else "<"
+    dt = numpy.dtype([("id", "S256"), ("origin_time", bo + "i8"), ("latitude", bo + "f8"), ("longitude", bo + "f8"),
+                      ("depth", bo + "f8"), ("magnitude", bo + "f8")])
+    data = numpy.zeros(n, dtype=dt)
+    data["id"] = numpy.arange(n).astype("S256")
+    data["origin_time"] = 1000 * numpy.arange(n)
+    data["latitude"], data["longitude"], data["magnitude"], data["depth"] = arr_lat, arr_lon, arr_m, 10.0
+    if case["rkind"] == "cart":
+        origins = numpy.array([[float(a), float(b)] for a, b in case["origins"]])
+        region = CartesianGrid2D.from_origins(origins, dh=float(case["dh"]), magnitudes=numpy.array(edges) if case["mode"] == "bound" else None)
+        xs = sorted(set(origins[:, 0])); ys = sorted(set(origins[:, 1]))
+        olist = [tuple(o) for o in origins.tolist()]
+
+        def cell_of(lon, lat):
+            key = (float(numpy.floor(lon)), float(numpy.floor(lat)))      # unit lattice at integer origins: exact
+            return olist.index(key) if key in olist else None
+        ncell, cart = len(olist), True
+        cells = [(xs.index(o[0]), ys.index(o[1])) for o in olist]
+        rargs = [",".join(frac(x) for x in region.xs), ",".join(frac(y) for y in region.ys), ",".join(str(i) for i, _ in cells),
+                 ",".join(str(j) for _, j in cells), ",".join("1" for _ in cells)]
+    else:
+        region = QuadtreeGrid2D.from_quadkeys(list(case["quadkeys"]), magnitudes=numpy.array(edges) if case["mode"] == "bound" else None)
+        cell_of = base.quad_cell_of(region.bounds)
+        ncell, cart = len(case["quadkeys"]), False
+        b = numpy.asarray(region.bounds, dtype=float)
+        rargs = [",".join(frac(v) for v in b[:, c]) for c in range(4)]
+    kw = {} if case["mode"] == "bound" else dict(mag_bins=list(edges) if case["mode"] == "list" else numpy.array(edges))
+    run.case(dict(kind="big", n=n, rkind=case["rkind"]), ("big", json.dumps({k: v for k, v in case.items() if k != "background"}, sort_keys=True)))
+    run.count(f"big:{'huge' if case['n_dense'] >= 32768 else 'dense'}:{case['rkind']}:{case['dtype']}")
+    # exact recount over the DISTINCT events with multiplicities
+    import collections
+    mult = collections.Counter(zip(arr_lon.tolist(), arr_lat.tolist(), arr_m.tolist()))
+    import bisect
+    e_sc, e_mc = [0] * ncell, [0] * len(edges)
+    e_smc = [[0] * len(edges) for _ in range(ncell)]
+    rejected = False
+    for (lon, lat, m), k in mult.items():
+        c = cell_of(lon, lat)
+        bidx = bisect.bisect_right(edges, m) - 1
+        if c is None or bidx < 0:
+            rejected = True
+        if c is not None:
+            e_sc[c] += k
+        if bidx >= 0:
+            e_mc[bidx] += k
+        if c is not None and bidx >= 0:
+            e_smc[c][bidx] += k
+    anyout = any(cell_of(lon, lat) is None for lon, lat, _ in mult)
+    want = dict(sc="E" if (cart and anyout) else e_sc, sep="E" if (cart and anyout) else [1 if v else 0 for v in e_sc], mc=e_mc,
+                smc="E" if rejected else e_smc)
+
+    def fresh():
+        return CSEPCatalog(data=data.copy(), region=region)
+    got = dict(sc=base._call(lambda: fresh().spatial_counts()), sep=base._call(lambda: fresh().spatial_event_probability()),
+               mc=base._call(lambda: fresh().magnitude_counts(**kw)), smc=base._call(lambda: fresh().spatial_magnitude_counts(**kw)))
+    for k in ("sc", "sep", "mc", "smc"):
+        if got[k] != want[k]:
+            run.oracle_failure(case, f"{n} events, {case['n_dense']} of them in one (cell, bin): {k} = {str(got[k])[:150]}, exact recount "
+                                     f"{str(want[k])[:150]}")
+            return
+    if isinstance(got["smc"], list) and sum(map(sum, got["smc"])) != n:
+        run.oracle_failure(case, f"total of the space-magnitude array {sum(map(sum, got['smc']))} != number of events {n}")
+        return
+    try:
+        c = fresh()
+        if c.event_count != n or c.get_number_of_events() != n:
+            run.oracle_failure(case, f"event_count {c.event_count} for {n} events")
+            return
+        for k in range(len(edges)):
+            st = [f"magnitude >= {edges[k]!r}"] + ([f"magnitude < {edges[k + 1]!r}"] if k + 1 < len(edges) else [])
+            kept = int(fresh().filter(st, in_place=False).event_count)
+            if kept != e_mc[k]:
+                run.oracle_failure(case, f"bin {k}: magnitude-range filter keeps {kept} events, the bin holds {e_mc[k]}")
+                return
+    except Exception as ex:
+        run.oracle_failure(case, f"filter on a catalog of {n} events raised {type(ex).__name__}: {ex}")
+        return
+    cache = {}
+
+    def fr(x):
+        if x not in cache:
+            cache[x] = frac(x)
+        return cache[x]
+    lons = ",".join(fr(x) for x in arr_lon.tolist()); lats = ",".join(fr(x) for x in arr_lat.tolist()); mags = ",".join(fr(x) for x in arr_m.tolist())
+    q = drv.ask(" ".join(["c03_cart" if cart else "c03_quad"] + rargs + [lons, lats, mags, ",".join(frac(x) for x in edges)]))
+    pending.append(("big", case, q, (got["sc"], got["sep"], got["mc"], got["smc"])))
+
+
 def run_all(run, rng, tier, Driver):
     run.extra["awaiting_decision"] = [f"{w['id']} ({w['cls']}): {w['what']}" for w in AWAITING_DECISION]
     drv, pending = Driver(), []
+    for k in range(40 if tier == "quick" else 300):
+        big_case(run, drv, pending, gen_big_case(rng, huge=(k < 2 if tier == "quick" else k < 12)))
+        if len(pending) >= 10:
+            flush(run, drv, pending)
+    flush(run, drv, pending)
     for _ in range(450 if tier == "quick" else 4500):
         state_seq_case(run, drv, pending, gen_state_seq(rng, tier))
         if len(pending) >= 80:
@@ -465,7 +775,9 @@ def run_all(run, rng, tier, Driver):
 
 def replay(run, case, Driver):
     drv, pending = Driver(), []
-    if case["kind"] == "stateseq":
+    if case["kind"] == "big":
+        big_case(run, drv, pending, case)
+    elif case["kind"] == "stateseq":
         state_seq_case(run, drv, pending, {k: v for k, v in case.items() if k not in ("failed_step", "op")})
     else:
         expected_case(run, drv, pending, case)
